@@ -186,6 +186,9 @@ def native_replay(job, cases, tmp, tag, race=False):
             outs[cur].append(line)
         elif line.startswith("REPLAY-ERROR"):
             outs.setdefault("_error", []).append(line)
+    if cur is not None and ("stack overflow" in r.stdout or "stack overflow" in r.stderr or "goroutine stack exceeds" in r.stdout + r.stderr):
+        # the Go runtime killed the test binary in the middle of this case
+        outs[cur].append("REPLAY-PANIC fatal error: stack overflow")
     if not outs:
         outs["_error"] = ["no replay output: " + (r.stdout[-1500:] + r.stderr[-1500:])]
     if race and "WARNING: DATA RACE" in (r.stdout + r.stderr):
